@@ -654,6 +654,13 @@ pub fn expect(call: &Call, pre: &Snap) -> Vec<Exp> {
         Sgr(codes) => {
             let d = Attr::default_with(pre.has_mode(DECSCNM));
             e.s.cattr = sgr_fold(&pre.cattr, &d, codes);
+            if codes.is_empty() {
+                // only reachable through the API (the parser delivers [0] for `CSI m`): the fold of
+                // an empty list is the identity, the documented implementation resets - both accepted
+                let mut alt = Exp::new(pre.clone());
+                alt.lenient = true;
+                return vec![e, alt];
+            }
         }
         SetTabStop => {
             e.s.tabstops.insert(pre.cx);
